@@ -37,8 +37,11 @@ def _expr(rng: Rng, avail: list[str]) -> str:
     return rng.choice(UNOPS).format(rng.choice(avail))
 
 
-def gen_script(rng: Rng, tag: str) -> dict:
-    """Returns {'src': ..., 'fns': [...], 'tag': ...}."""
+def gen_script(rng: Rng, tag: str, consts: Rng | None = None, const_exprs: bool | None = None) -> dict:
+    """Returns {'src': ..., 'fns': [...], 'tag': ...}. The values of the module-level constants come from their own stream
+    (`consts`), so that two calls with the same `rng` and different `consts` give *twins*: the same text, line for line,
+    except for the constants' values — an edited module that is run again."""
+    crng = consts if consts is not None else rng.sub("module-consts")
     # function names are unique per module only: a third of the scripts use the same few names as every other such script
     # (model_fn / helper / leaf_x ...), so that anything keyed by a function's name or qualified name across translations shows
     if rng.sub("common-names").chance(0.33):
@@ -54,14 +57,30 @@ def gen_script(rng: Rng, tag: str) -> dict:
         f"from onnxscript.onnx_opset import opset{ver} as op",
         "from onnxscript.onnx_types import FLOAT, BOOL, INT64",
         "",
-        f"K0 = {rng.choice(['2.5', '0.5', '3.0', '-1.25'])}",
-        f"KARR = np.array([{rng.choice(['1.0', '0.25', '4.0'])}], dtype=np.float32)",
-        f"NITER = {rng.randint(1, 4)}",
-        f"TCONST = make_tensor('tc', TensorProto.FLOAT, [2], [{rng.choice(['1.0, 2.0', '0.5, -0.5'])}])",
-        f"FLOATS = [{rng.choice(['1.0, 3.0', '2.0', '0.25, 0.5, 0.75'])}]",
+        f"K0 = {crng.choice(['2.5', '0.5', '3.0', '-1.25', '1.75', '-0.5'])}",
+        f"KARR = np.array([{crng.choice(['1.0', '0.25', '4.0'])}], dtype=np.float32)",
+        f"NITER = {crng.randint(1, 4)}",
+        f"TCONST = make_tensor('tc', TensorProto.FLOAT, [2], [{crng.choice(['1.0, 2.0', '0.5, -0.5'])}])",
+        f"FLOATS = [{crng.choice(['1.0, 3.0', '2.0, 5.0', '0.25, 0.5'])}]",
+        f"WIDTH = {crng.choice([2, 3, 4, 6])}",
         "",
     ]
     use_module_consts = rng.chance(0.35)
+    # constants used inside *expressions* evaluated at script time (attribute values, annotations, a closure of a factory)
+    use_const_exprs = rng.chance(0.3) if const_exprs is None else const_exprs
+    if use_const_exprs:
+        lines += [
+            f"def make_scaled_{tag}(gain, width):",
+            "    @script()",
+            f"    def scaled_{tag}(p: FLOAT['N']) -> FLOAT['N']:",
+            "        c = op.Constant(value_float=gain * 1.0)",
+            "        s = op.Constant(value_ints=[-1, width])",
+            "        return op.Reshape(op.Reshape(op.Mul(p, c), s), op.Constant(value_ints=[-1]))",
+            f"    return scaled_{tag}",
+            f"scaled_a_{tag} = make_scaled_{tag}(K0, 1)",
+            f"scaled_b_{tag} = make_scaled_{tag}({rng.choice(['4.0', '0.125'])}, 1)",
+            "",
+        ]
     # a helper function named like an ONNX operator that the script's own opset version does not have yet (users do name
     # helpers "Gelu" or "LayerNormalization"): name look-ups shared between the front end and the model passes
     oplike = None
@@ -160,6 +179,11 @@ def gen_script(rng: Rng, tag: str) -> dict:
     if use_module_consts:
         body.append(f"{ind}{vs[-1]} = op.Add({vs[-1]}, op.ReduceSum(op.Constant(value=TCONST), keepdims=0))")
         body.append(f"{ind}{vs[0]} = op.Add({vs[0]}, op.ReduceSum(op.Constant(value_floats=FLOATS), keepdims=0))")
+    if use_const_exprs:
+        body.append(f"{ind}{vs[0]} = op.Add(op.Mul({vs[0]}, op.Constant(value_float=K0 * 0.5)), "
+                    f"op.ReduceSum(op.Constant(value_floats=[K0, K0 + 1.0]), keepdims=0))")
+        body.append(f"{ind}{vs[-1]} = op.Add({rng.choice(['scaled_a', 'scaled_b'])}_{tag}({vs[-1]}), "
+                    f"op.ReduceSum(op.Constant(value_ints=[NITER, WIDTH * 2]), keepdims=0) * 1.0)")
     if attr_helper is not None:
         hname, anames = attr_helper
         given = rng.sample(anames, rng.randint(0, len(anames)))
